@@ -15,7 +15,14 @@ use std::task::{Context, Poll, Waker};
 #[derive(Clone, Debug, Default)]
 pub struct T(pub u64);
 impl PartialEq for T { fn eq(&self, o: &T) -> bool { self.0 % 8 == o.0 % 8 } }
-impl Hash for T { fn hash<H: Hasher>(&self, h: &mut H) { (self.0 / 8).hash(h) } }
+/// hash class `v / 8`, fed to the hasher as that many zero bytes (classes below 16) — input whose only information is its
+/// LENGTH, which a careless hasher (zero-padding its last chunk, starting from a zero state) cannot tell apart
+impl Hash for T {
+    fn hash<H: Hasher>(&self, h: &mut H) {
+        let c = self.0 / 8;
+        if c < 16 { h.write(&[0u8; 16][..c as usize]) } else { h.write_u64(c) }
+    }
+}
 
 /// hand-rolled executor: poll the future once; `None` = it did not complete (it would have to wait)
 fn now<F: Future>(f: F) -> Option<F::Output> {
@@ -99,15 +106,22 @@ impl OW {
     fn check_all_woken(&self, sink: &mut Sink, why: &str) {
         for (i, s) in self.subs.iter().enumerate() {
             if let Some(s) = s { if s.parked && !s.flag.0.load(Ordering::SeqCst) {
-                sink.oracle_fail(if self.asyncf { "C02,C16,C01" } else { "C02,C01" }, &format!("subscriber {i} was Pending and is not woken by {why}"));
+                sink.oracle_fail(&self.p("C02,C01"), &format!("subscriber {i} was Pending and is not woken by {why}"));
             } }
             if let Some(s) = s { if s.tparked && !self.task_flag.0.load(Ordering::SeqCst) {
-                sink.oracle_fail(if self.asyncf { "C02,C16,C01" } else { "C02,C01" }, &format!("subscriber {i} was Pending when polled by the task that polls several subscribers with one waker, and the task is not woken by {why}"));
+                sink.oracle_fail(&self.p("C02,C01"), &format!("subscriber {i} was Pending when polled by the task that polls several subscribers with one waker, and the task is not woken by {why}"));
             } }
         }
     }
     fn mark_fresh(&mut self) { for s in self.subs.iter_mut().flatten() { s.fresh = true; } }
-    fn p(&self, base: &str) -> String { if self.asyncf { format!("{base},C16") } else { base.to_string() } }
+    /// property tags of an oracle failure: the async flavour also answers to C16; a SharedObservable that deviates from the
+    /// sequential specification in a one-thread history has no linearization either (C04)
+    fn p(&self, base: &str) -> String {
+        let mut t = base.to_string();
+        if self.asyncf { t += ",C16"; }
+        if !self.is_unique() && base.contains("C01") && !self.asyncf { t += ",C04"; }
+        t
+    }
 
     /// writer call, directly (`guard = false`) or through a write guard
     pub fn write(&mut self, sink: &mut Sink, h: usize, op: &WOp, guard: bool) {
@@ -652,7 +666,7 @@ fn run_wakers(sink: &mut Sink, asyncf: bool) {
             if by_close { drop(shared); drop(uniq.take()); } else if let Some(o) = &shared { o.set(T(2)); } else if let Some(o) = uniq.as_mut() { Observable::set(o, T(2)); }
             let w = slotw::woken();
             if w[..nsub].iter().any(|x| !*x) {
-                sink.oracle_fail("C02,C01", &format!("{nsub} pending subscribers whose wakers share their data pointer and differ in their vtable: woken after {} = {:?}", if by_close { "the drop of the observable" } else { "a set" }, &w[..nsub]));
+                sink.oracle_fail("C02,C01,C04", &format!("{nsub} pending subscribers whose wakers share their data pointer and differ in their vtable: woken after {} = {:?}", if by_close { "the drop of the observable" } else { "a set" }, &w[..nsub]));
             }
             sink.line("xcf nw slot", "ok"); sink.nontrivial();
         } } }
@@ -668,7 +682,7 @@ fn run_wakers(sink: &mut Sink, asyncf: bool) {
             if by_close { drop(o); } else { o.set(T(2)); }
             let missed = subs.iter().filter(|(_, f, _)| !f.0.load(Ordering::SeqCst)).count();
             if missed > 0 || !first.1 .0.load(Ordering::SeqCst) {
-                sink.oracle_fail("C02,C01", &format!("41 pending subscribers and 40 further registrations of a re-polled one: {} were not woken by {}", missed + (!first.1 .0.load(Ordering::SeqCst)) as usize, if by_close { "the drop of the last owner" } else { "a set" }));
+                sink.oracle_fail("C02,C01,C04", &format!("41 pending subscribers and 40 further registrations of a re-polled one: {} were not woken by {}", missed + (!first.1 .0.load(Ordering::SeqCst)) as usize, if by_close { "the drop of the last owner" } else { "a set" }));
             }
             sink.line("xcf nw many", "ok"); sink.nontrivial();
         }
@@ -694,7 +708,7 @@ fn run_wakers(sink: &mut Sink, asyncf: bool) {
             }
             if let Some(b) = bad { sink.oracle_fail("C01", &format!("{b} of a subscriber that has seen the current value is ready")); }
             if !flags.last().unwrap().0 .0.load(Ordering::SeqCst) {
-                sink.oracle_fail("C02,C01", &format!("one {} future polled Pending {polls} times, each time with another waker: the waker of the latest poll is not woken by {}", if which == 0 { "next()" } else { "next_ref()" }, if by_close { "the drop of the last owner" } else { "a set" }));
+                sink.oracle_fail("C02,C01,C04", &format!("one {} future polled Pending {polls} times, each time with another waker: the waker of the latest poll is not woken by {}", if which == 0 { "next()" } else { "next_ref()" }, if by_close { "the drop of the last owner" } else { "a set" }));
             }
             sink.line("xcf nw repoll", "ok"); sink.nontrivial();
         } } }
